@@ -25,7 +25,11 @@ EXPLANATION = (
     "function assembles a multi-byte integer big-endian, and no byte assembly of type int can carry bit 31 into a 64-bit result (sign extension on widening); (7) page geometry, by the loader traces: after a "
     "dictionary page the first data page is looked for at dictionary offset + header size + compressed "
     "(stored) size whatever the codec, a data page header is read at data_start_offset + bytes already "
-    "consumed, and the loader records header size and stored size as the amounts the cursor advances by. "
+    "consumed, and the loader records header size and stored size as the amounts the cursor advances by; (8) "
+    "carquet_zstd_decompress, executed against a model of libzstd for a valid frame (content size recorded "
+    "in the frame or absent - streaming encoders omit it -, decompression context available or not, frame "
+    "equal to / below the capacity), returns OK with the decoded size and hands the library the caller's "
+    "extents; a frame larger than the destination is an error. "
     "Decides these clauses, not that decoded values/levels equal the stored ones.")
 
 PR = "src/reader/page_reader.c"
@@ -50,6 +54,9 @@ def run(ctx):
     from ..rules import codecrepr
     codecrepr.reader(ctx)
     codecrepr.loaders(ctx)
+    ctx.clause("C06.8 the ZSTD wrapper accepts every valid frame that fits, with or without a recorded content size")
+    from ..rules import codecwrap
+    nzs = codecwrap.check(ctx)
     ctx.clause("C06.6 multi-byte integers are assembled little-endian on the decoding side")
     from ..rules import endian
     efns = P.funcs_under("src/encoding/", "src/compression/", "src/reader/", "src/thrift/", "src/core/", "src/util/", "src/metadata/")
